@@ -145,6 +145,96 @@ def check_universe(universe: str, rep: core.Report):
         rep.samples.append(sample)
 
 
+def _parse_chunk(items):
+    """parse documents (valid and faulty) with the run-time recorder on: the parser's phase-2 schedule of container calls"""
+    from . import container_trace as ct
+    from .surface import print_doc
+    from pydbml import PyDBML
+    ct.install()
+    out = []
+    for tid, doc, allow in items:
+        ct.reset()
+        try:
+            text = print_doc(doc, tid, {}, None)
+        except AssertionError:
+            continue
+        try:
+            PyDBML(text, allow_properties=allow)
+        except Exception:
+            pass
+        seen = set()
+        for e in ct.EVENTS:
+            k = json.dumps([e['call'], e['outcome'], e['pre'], e['post']], sort_keys=True)
+            if k not in seen:
+                seen.add(k)
+                out.append({'call': e['call'], 'outcome': e['outcome'], 'pre': e['pre'], 'post': e['post'],
+                            'where': {'document_seed': tid, 'text': text, 'allow_properties': allow}})
+    return out
+
+
+def suite_events() -> List[Dict[str, Any]]:
+    """run the repository's own test-suite with the recorder loaded as a pytest plugin (nothing is written to the repository)"""
+    import os
+    import subprocess
+    work = tlc.new_dir('suite')
+    out = os.path.join(work, 'events.ndjson')
+    repo = os.environ.get('VERIF_REPO', '/repo')
+    env = dict(os.environ, PV_TRACE_OUT=out, PYTHONPATH='%s:%s' % (core.VERIF, repo), PYTHONDONTWRITEBYTECODE='1')
+    p = subprocess.run([sys.executable, '-B', '-m', 'pytest', '-q', '-p', 'pv.container_trace', '-p', 'no:cacheprovider',
+                        '-x', '--timeout=900'], cwd=repo, env=env, capture_output=True, text=True, timeout=1800)
+    if not os.path.exists(out):
+        raise core.Machinery('the recorder plugin wrote no events (pytest exit %s)\n%s' % (p.returncode, (p.stdout + p.stderr)[-2000:]))
+    evs = [json.loads(ln) for ln in open(out)]
+    skipped = int(open(out + '.skipped').read() or 0)
+    return evs, skipped, p.returncode
+
+
+def check_recorded(rep: core.Report):
+    """Executions the specification did not choose -- the repository's test-suite and the parser's phase-2 schedule --
+    recorded at the public container methods and judged by TLC against ContainerInv.tla."""
+    from . import docs
+    evs, skipped, rc = suite_events()
+    if len(evs) < 300:
+        raise core.Machinery('only %d container calls recorded from the test-suite' % len(evs))
+    nsuite = len(evs)
+    ndocs = 400 if core.tier() == 'quick' else 6000
+    base = core.seed() * 100000
+    gen = docs.gen_docs(base + 1, base + ndocs, True, rep, with_comments=False)
+    faults = docs.gen_faults(base + 1, base + ndocs // 2, rep)
+    items = [(sd, d, sd % 2 == 0) for sd, d in gen] + [(sd, f['doc'], False) for sd, f in faults]
+    for part in core.pmap(_parse_chunk, core.chunked(items, core.NCPU * 2)):
+        evs += part
+    for i, e in enumerate(evs):
+        e['tid'] = i + 1
+    verdicts, st = core.validate('TraceContainerInv', 'TraceContainerInv.cfg',
+                                 [{k: e[k] for k in ('tid', 'call', 'outcome', 'pre', 'post')} for e in evs])
+    rep.add_val_stats('TraceContainerInv', st)
+    cov: Dict[str, int] = {}
+    unjudged = 0
+    for e in evs:
+        v = verdicts[e['tid']]
+        if v == '':
+            rep.traces_ok += 1
+            k = '%s -> %s' % (e['call'], e['outcome'])
+            cov[k] = cov.get(k, 0) + 1
+            if e['pre'] != e['post'] or e['outcome'] != 'ok':
+                rep.mark_nontrivial(['recorded', e['tid']])
+        elif v == 'pre-state-not-consistent':
+            unjudged += 1          # a test that builds an inconsistent state on purpose: the call is not judged
+        else:
+            rep.violation({'recorded': e['where'], 'call': e['call']},
+                          {'failing_clause': v, 'outcome': e['outcome'], 'pre': e['pre'], 'post': e['post']})
+    rep.evaluations += len(evs)
+    for need in ('Database.add_table -> ok', 'Database.add_reference -> ok', 'Database.delete_table -> ok',
+                 'Table.add_column -> ok', 'Database.add_table -> DatabaseValidationError'):
+        if not cov.get(need):
+            raise core.Machinery('recorded executions never showed %r' % need)
+    rep.notes['recorded_executions'] = {
+        'test_suite_calls': nsuite, 'test_suite_calls_not_describable': skipped, 'pytest_exit': rc,
+        'parser_calls': len(evs) - nsuite, 'documents_parsed': len(items), 'pre_state_inconsistent_not_judged': unjudged,
+        'accepted_by_call_and_outcome': dict(sorted(cov.items()))}
+
+
 def replay(path: str, rep: core.Report) -> int:
     """Re-execute a recorded stimulus on the current tree and let TLC judge every step again."""
     from . import container_exec as ce
@@ -178,9 +268,12 @@ def main(argv: List[str]) -> int:
                        'structural equality is modelled by Eq* in Container.tla as transcribed from SQLObject.__eq__']
     if '--replay' in argv:
         return replay(argv[argv.index('--replay') + 1], rep)
-    only = [a for a in argv if a in UNIVERSES] or UNIVERSES
+    only = [a for a in argv if a in UNIVERSES + ['recorded']] or UNIVERSES + ['recorded']
     for u in only:
-        check_universe(u, rep)
+        if u == 'recorded':
+            check_recorded(rep)
+        else:
+            check_universe(u, rep)
     return rep.finish()
 
 
